@@ -488,7 +488,13 @@ func c37RunAlloc(in c37In) (V, Verdict) {
 func init() {
 	Register(Spec[c37In]{
 		ID: "C37", Suite: "mut", CoqImports: c37CoqImports, CoqType: "string * string * Z", CoqRun: c37CoqRun,
-		Quick: 6000, Thorough: 200000, Parallel: 4, Timeout: 20 * time.Second,
+		// thorough: 48000 cases = 120 case files of 400, evaluated 8 at a time.
+		// Measured on a 16-core machine that other jobs kept at load 30-60:
+		// 48000 cases 13.1 min wall / 60 CPU-min; 60000 cases 19.6 min / 92
+		// CPU-min; 200000 cases stopped after 25 min with 190 of 501 files done.
+		// About 30 s of Coq time per file, 15 rounds of 8, plus 63 s coqchk and
+		// the build: about 9-10 min on an idle machine.
+		Quick: 6000, Thorough: 48000, Parallel: 4, Timeout: 20 * time.Second,
 		Corpus: func() []c37In {
 			return []c37In{
 				{Reader: "rtpdump", Mut: "len-field-4", Hex: hex.EncodeToString(append(append([]byte("#!rtpplay1.0 1.2.3.4/5\n"), make([]byte, 16)...), 0, 4, 0, 0, 0, 0, 0, 0, 9, 9))},
